@@ -41,6 +41,15 @@ def name_rules(rep, prog, cfg):
             err_t = [sw["otherwise"]]
     cons = [bb for bb, i, s in build.stmts() if s["k"] == "assign" and s["rv"]["k"] == "agg" and s["rv"].get("adt_name", "").endswith("command::Command")]
     ok = bool(ok_t and err_t and cons) and all(c in reach(g.succs, ok_t) and c not in reach(g.succs, err_t) for c in cons)
+    if not ok and cons:
+        # `validate(name).map_err(..)?; Ok(Command(..))`: decided on the outcome of the validator call (A13) — with Err the
+        # construction is not reachable, with Ok it is
+        from ..cfg import VariantReach
+        vr = VariantReach(build)
+        res_l = vt["dest"]["l"]
+        on_err = vr.blocks_after_def(vbb, res_l, ("Err",))
+        on_ok = vr.blocks_after_def(vbb, res_l, ("Ok",))
+        ok = all(c in on_ok and c not in on_err for c in cons)
     rep.check(ok, "C07.name-alphabet", cfg + "/constructed only when valid", build.loc(build.span),
               "Command::build constructs the command on a path that does not come from the validator's Ok result")
     # what is stored is what was validated: the bytes derive from the name through conversions that keep them
